@@ -50,6 +50,8 @@ def base_files():
                          (B, F.daqmx_enc(2, [(3, 0, 2, 0, 0)], [4]), [F._uprop('NI_Number_Of_Scales', 1)])], chunks=2)],
         'strings': [G.seg([(A, ['FULL', 'String', 2, 5]), (B, ['FULL', 'Int32', 1])], chunks=2)],
         'big-endian': [G.seg([("/'g'", ['NODATA'], p), (A, ['FULL', 'TimeStamp', 2]), (B, ['FULL', 'Int8', 2])], big=True)],
+        # every channel one plain block of the file (what a single write_segment call or defragment produces)
+        'single-chunk': [G.seg([(A, ['FULL', 'Int32', 3]), (B, ['FULL', 'DoubleFloat', 2])], chunks=1)],
     }
     return out
 
@@ -88,6 +90,7 @@ class Env(object):
     def __init__(self):
         self.tmp = H.scratch('verif_c20_')
         self.path = os.path.join(self.tmp, 'f.tdms')
+        self.mm = H.scratch('verif_c20mm_')      # memmap_dir: outside the judged directory (the library's own temporary files)
         self.handles = []
 
     def reset_handles(self):
@@ -149,6 +152,7 @@ class Env(object):
 
     def close(self):
         shutil.rmtree(self.tmp, ignore_errors=True)
+        shutil.rmtree(self.mm, ignore_errors=True)
 
 
 def ops_of(tf):
@@ -188,9 +192,9 @@ def scenario(env, api, src, data, idx):
     source = stream if stream is not None else env.path
     H.signal.setitimer(H.signal.ITIMER_REAL, 3.0)
     try:
-        if api in ('read', 'read_metadata'):
+        if api in ('read', 'read_metadata', 'read-memmap'):
             try:
-                tf = getattr(H.TdmsFile, api)(source)
+                tf = H.TdmsFile.read(source, memmap_dir=env.mm) if api == 'read-memmap' else getattr(H.TdmsFile, api)(source)
             except Exception:  # noqa - the exception object is alive here: frames still reference the reader
                 lk = env.leaks()
                 if lk:
@@ -292,7 +296,7 @@ def scenario(env, api, src, data, idx):
     except H.Watchdog:
         # termination on corrupted input is not part of this property; descriptors still are
         HANGS[0] += 1
-        lk = env.leaks() if api in ('read', 'read_metadata') else []
+        lk = env.leaks() if api in ('read', 'read_metadata', 'read-memmap') else []
         if lk:
             probs.append(('fd-leak-after-raise', '%s was interrupted and left %r open' % (api, lk)))
     finally:
@@ -355,7 +359,7 @@ def run_base(item):
                         continue
                     if src == 'rawstream' and fault[0] not in ('none', 'cut'):
                         continue   # the unbuffered caller stream: intact and cut files (overwrites are explored with the other two)
-                    for api in APIS:
+                    for api in APIS + (['read-memmap'] if (src == 'path' and fault[0] in ('none', 'cut')) else []):
                         res['counters']['runs'] += 1
                         res['counters']['nontrivial'] += 1 if fault[0] != 'none' else 0
                         record(fault, api, src, withidx, scenario(env, api, src, fdata, idx))
